@@ -842,7 +842,7 @@ Lemma clean_one_unfold a f n :
        then match stat f (nlabel n) with SMissing => true | _ => false end
        else match fs_get f (nlabel n) with None => true | _ => false end)
    then (f, CSkip)
-   else match (if memN (nfstate n) volatile_states then Some false else
+   else match (if negb (memN (nfstate n) clean_compared_states) then Some false else
                if negb (clean_hash_checked (lkind f (nlabel n))) then Some false else
                  match stat f (nlabel n) with
                  | SDir => None
@@ -859,20 +859,32 @@ Proof. reflexivity. Qed.
 Definition hash_if_lexists (n : node) : Prop :=
   clean_missing_follows_links = false -> memN (nfstate n) volatile_states = false -> nfhash n <> None.
 
+(* the regenerated state conjuncts of `changed`: among the states SELECT_OUTPUTS selects, the hash comparison is
+   skipped for volatile outputs only *)
+Lemma gen_clean_compared s :
+  memN s clean_select_states = true -> memN s clean_compared_states = false -> memN s volatile_states = true.
+Proof.
+  intros Hs Hc.
+  assert (forallb (fun x => memN x clean_compared_states || memN x volatile_states) clean_select_states = true) as Hall
+    by reflexivity.
+  pose proof (memN_forallb _ s _ Hs Hall) as H. cbv beta in H. rewrite Hc in H. exact H.
+Qed.
+
 Lemma clean_one_removed a f n f' :
-  hash_if_lexists n ->
+  hash_if_lexists n -> memN (nfstate n) clean_select_states = true ->
   clean_one a f n = (f', CRemoved) ->
   is_unlinkable (fs_get f (nlabel n)) = true /\ f' = fs_del f (nlabel n) /\ a_commit a = true /\
     (memN (nfstate n) volatile_states = true \/ (exists h, stat f (nlabel n) = SFile h /\ nfhash n = Some h) \/
      a_safe a = false).
 Proof.
-  intros Hhash. rewrite clean_one_unfold. unfold hash_if_lexists in Hhash.
+  intros Hhash Hsel. rewrite clean_one_unfold. unfold hash_if_lexists in Hhash.
+  pose proof (gen_clean_compared (nfstate n) Hsel) as Hcmp.
   destruct clean_missing_follows_links eqn:Hmf.
   - (* exists(): follows links *)
     destruct (stat f (nlabel n)) as [|h|] eqn:Hs; [intros H; inversion H| |].
-    all: destruct (memN (nfstate n) volatile_states) eqn:Hv.
-    1,3: intros H; apply clean_tail_removed in H; destruct H as [Hu [-> [Hc _]]];
-         (split; [exact Hu | split; [reflexivity | split; [exact Hc | left; reflexivity]]]).
+    all: destruct (memN (nfstate n) clean_compared_states) eqn:Hv; cbn [negb].
+    2,4: intros H; apply clean_tail_removed in H; destruct H as [Hu [-> [Hc _]]];
+         (split; [exact Hu | split; [reflexivity | split; [exact Hc | left; apply Hcmp; reflexivity]]]).
     all: rewrite gen_clean_hash_checked; cbn [negb].
     + intros H. apply clean_tail_removed in H. destruct H as [Hu [-> [Hc Hwhy]]].
       split; [exact Hu | split; [reflexivity | split; [exact Hc|]]].
@@ -882,10 +894,13 @@ Proof.
     + intros H. inversion H.
   - (* lexists(): a dangling link is not missing *)
     destruct (fs_get f (nlabel n)) as [e|] eqn:Hg; [|intros H; inversion H].
-    destruct (memN (nfstate n) volatile_states) eqn:Hv.
-    + intros H. apply clean_tail_removed in H. destruct H as [Hu [-> [Hc _]]]. rewrite Hg in Hu.
-      split; [exact Hu | split; [reflexivity | split; [exact Hc | left; reflexivity]]].
+    destruct (memN (nfstate n) clean_compared_states) eqn:Hv; cbn [negb].
+    2: { intros H. apply clean_tail_removed in H. destruct H as [Hu [-> [Hc _]]]. rewrite Hg in Hu.
+         split; [exact Hu | split; [reflexivity | split; [exact Hc | left; apply Hcmp; reflexivity]]]. }
     + rewrite gen_clean_hash_checked. cbn [negb].
+      destruct (memN (nfstate n) volatile_states) eqn:Hvol.
+      { intros H. destruct (stat f (nlabel n)); try (apply clean_tail_removed in H; destruct H as [Hu [-> [Hc _]]]; rewrite Hg in Hu;
+          split; [exact Hu | split; [reflexivity | split; [exact Hc | left; reflexivity]]]). inversion H. }
       destruct (stat f (nlabel n)) as [|h|] eqn:Hs.
       * intros H. apply clean_tail_removed in H. destruct H as [Hu [-> [Hc Hwhy]]]. rewrite Hg in Hu.
         split; [exact Hu | split; [reflexivity | split; [exact Hc|]]].
@@ -907,7 +922,7 @@ Lemma clean_one_removed_shape a f n f' :
 Proof.
   rewrite clean_one_unfold.
   destruct (if clean_missing_follows_links then _ else _); [intros H; inversion H|].
-  destruct (if memN (nfstate n) volatile_states then _ else _) as [changed|]; [|intros H; inversion H].
+  destruct (if negb (memN (nfstate n) clean_compared_states) then _ else _) as [changed|]; [|intros H; inversion H].
   intros H. apply clean_tail_removed in H. destruct H as [Hu [-> [Hc _]]]. split; [exact Hu | split; [reflexivity | exact Hc]].
 Qed.
 
@@ -915,7 +930,7 @@ Lemma clean_one_other a f n f' st : clean_one a f n = (f', st) -> st <> CRemoved
 Proof.
   rewrite clean_one_unfold.
   destruct (if clean_missing_follows_links then _ else _); [intros H; inversion H; reflexivity|].
-  destruct (if memN (nfstate n) volatile_states then _ else _) as [changed|].
+  destruct (if negb (memN (nfstate n) clean_compared_states) then _ else _) as [changed|].
   - apply clean_tail_other.
   - intros H; inversion H; reflexivity.
 Qed.
@@ -925,7 +940,7 @@ Definition clean_ok (a : clean_args) (f0 : fsys) (sel : list node) (p : str) : P
     (memN (nfstate n) volatile_states = true \/ (exists h0, stat f0 p = SFile h0 /\ nfhash n = Some h0) \/ a_safe a = false).
 
 Lemma clean_loop_inv a f0 sel ns : forall f removed f' removed' crash,
-  (forall n, In n sel -> hash_if_lexists n) ->
+  (forall n, In n sel -> hash_if_lexists n /\ memN (nfstate n) clean_select_states = true) ->
   (forall n, In n ns -> In n sel) ->
   trace_inv f0 f removed [] -> (forall x, In x removed -> clean_ok a f0 sel x) ->
   clean_loop a ns f removed = (f', removed', crash) ->
@@ -938,7 +953,8 @@ Proof.
     destruct st.
     + assert (f1 = f) as -> by (apply (clean_one_other _ _ _ _ _ Hone); discriminate).
       apply (IH _ _ _ _ _ Hhash Hsel' Hinv Hok Hrun).
-    + destruct (clean_one_removed _ _ _ _ (Hhash n (Hsel n (or_introl eq_refl))) Hone) as [Hg [-> [Hc Hwhy]]].
+    + destruct (Hhash n (Hsel n (or_introl eq_refl))) as [Hh1 Hh2].
+      destruct (clean_one_removed _ _ _ _ Hh1 Hh2 Hone) as [Hg [-> [Hc Hwhy]]].
       apply (IH _ _ f' removed' crash Hhash Hsel' (trace_inv_file _ _ _ _ _ Hinv Hg)); [|exact Hrun].
       intros x [<-|Hx]; [|apply Hok; exact Hx].
       exists n. split; [apply Hsel; left; reflexivity | split; [reflexivity | split; [exact Hc|]]].
@@ -1025,8 +1041,9 @@ Lemma clean_tool_trace g a trs f :
 Proof.
   intros Hrows. unfold clean_tool.
   destruct (clean_loop a (sort_nodes_desc (clean_selected g a trs)) f []) as [[f1 removed] crash] eqn:Hloop.
-  assert (forall n, In n (clean_selected g a trs) -> hash_if_lexists n) as Hhash.
-  { intros n Hn. apply Hrows. unfold clean_selected in Hn. apply filter_In in Hn. exact (proj1 Hn). }
+  assert (forall n, In n (clean_selected g a trs) -> hash_if_lexists n /\ memN (nfstate n) clean_select_states = true) as Hhash.
+  { intros n Hn. unfold clean_selected in Hn. apply filter_In in Hn. destruct Hn as [Hn Hcond]. split; [apply Hrows; exact Hn|].
+    apply andb_true_iff in Hcond. destruct Hcond as [Hcond _]. apply andb_true_iff in Hcond. exact (proj2 Hcond). }
   destruct (clean_loop_inv a f (clean_selected g a trs) _ f [] f1 removed crash Hhash
               (fun n Hn => sort_nodes_desc_in _ _ Hn) (trace_inv_init f)
               (fun x (H : In x []) => match H with end) Hloop) as [Hinv Hok].
